@@ -5,12 +5,12 @@ from .. import explore, streams
 from ..core import Check, Space
 from .c11 import _prefixes
 
-QMDS = [(("a", 1),), (("a", 2),), (("b", 1),), (("a", 1), ("b", 2))]
+QMDS = [(("a", 1),), (("a", 2),), (("b", 1),), (("a", 1), ("b", 2)), (("a", 0),), (("b", ""),)]
 KEYS = ("a", "b", "zz")
 
 
 class Model:
-    def __init__(self, derive=("Select", "Where", "MD1"), qmds=QMDS, execs=("Value",), roots=(1, 1)):
+    def __init__(self, derive=("Select", "Where", "MD1"), qmds=QMDS[:2] + QMDS[3:], execs=("Value",), roots=(1, 1)):
         self.derive, self.qmds, self.execs, self.roots = list(derive), list(qmds), list(execs), roots
 
     def fresh(self):
@@ -89,13 +89,13 @@ class C16(Check):
             "with the model for every live stream and k in {a, b, never-set}; at value() the AST the executor "
             "receives, its ast.dump, unparse text and calc_ast_hash are compared with those of the same "
             "derivation chain built without any QMetaData")
-    assumptions = ["values are small ints; equal-value re-sets are in the alphabet ({a:1} twice)"]
+    assumptions = ["values are small ints incl. falsy ones (0, ''); equal-value re-sets are in the alphabet ({a:1} twice)"]
     level_text = ("explicit-state model checking of the implementation: all histories to the stated depth, "
                   "reference-model comparison on every live stream after every transition")
 
     def spaces(self, tier):
         Q = tier == "quick"
-        plan = [("full", 3, 1), ("qmdonly", 5, 2)] if Q else [("full", 4, 2), ("qmdonly", 7, 2)]
+        plan = [("full", 3, 1), ("qmdonly", 4, 2)] if Q else [("full", 4, 2), ("qmdonly", 7, 2)]
         out = []
         for mname, depth, plen in plan:
             m = self._model(mname)
@@ -107,7 +107,7 @@ class C16(Check):
     def _model(self, name):
         if name == "full":
             return Model()
-        return Model(derive=("Select",), qmds=QMDS[:3], execs=(), roots=(1, 0))
+        return Model(derive=("Select",), qmds=QMDS[:3] + QMDS[4:5], execs=(), roots=(1, 0))
 
     def run_prefix(self, payload):
         mname, depth, prefix = payload
